@@ -4,6 +4,7 @@ import (
 	"bufio"
 	"bytes"
 	"fmt"
+	"github.com/alttpo/snes/emulator/cpu65c816"
 	"io"
 	"strings"
 
@@ -156,6 +157,9 @@ func (c14) Gen(r *sim.Rand, tier string, run uint64) *sim.Scenario {
 		if sc.Cfg["sink"] == 0 && r.Chance(1, 4) {
 			sc.Cfg["hookdetach"] = 1 // the first hook also detaches the Logger (tracing switched off from inside the run)
 		}
+	}
+	if kind == 2 && r.Chance(1, 6) {
+		sc.Cfg["forkbus"] = 1
 	}
 	if kind == 1 && r.Chance(1, 6) {
 		pcv := sc.Cfg["pc"]
@@ -453,7 +457,7 @@ func c14reupload(sm *SysMachine, sc *sim.Scenario) {
 // hook bumps a cell at the top of WRAM page $1F: a traced run that fires a hook more or less
 // often than an untraced one leaves different memory.
 func c14hooks(sm *SysMachine, sc *sim.Scenario, st *sim.Stats) {
-	sm.S.CPU.OnPC = nil
+	installHooks(&sm.S.CPU, nil)
 	n := int(sc.C("nhooks"))
 	if n <= 0 {
 		return
@@ -479,7 +483,7 @@ func c14hooks(sm *SysMachine, sc *sim.Scenario, st *sim.Stats) {
 			}
 		}
 	}
-	s.CPU.OnPC = hooks
+	installHooks(&s.CPU, hooks)
 }
 
 func splitLines(b []byte) []string {
@@ -575,6 +579,29 @@ func c14alt(sc *sim.Scenario, env *sim.Env) *sim.Violation {
 			}
 		}
 		mc.CPU.SetRegs(startRegs(sc))
+		if ca, ok := mc.CPU.(cpuA); ok && sc.C("forkbus") != 0 {
+			// the parent renders one line (and is then put aside); the program runs on a copy made
+			// with InitFrom onto ANOTHER bus, whose memory holds the routine with other constants:
+			// the copy's trace describes what is on the copy's bus
+			if traced {
+				_ = ca.TraceNoBuffer()
+			}
+			mem = NewSimMem(env, 2, uint64(sc.C("fillseed"))^0xf04c)
+			mem.NoLog = true
+			loadSimMem(mem, sc)
+			addr := uint32(sc.C("pc")) & 0xFFFFFF
+			for _, op := range sc.Ops {
+				if b := op.B; len(b) >= 2 && !ctrlOpcodes[b[0]] && b[0] != 0x44 && b[0] != 0x54 && b[0]&0x1F != 0x10 {
+					mem.Poke(addr&0xFF0000|(addr+uint32(len(b))-1)&0xFFFF, b[len(b)-1]^0x01)
+				}
+				addr = addr&0xFF0000 | (addr+uint32(len(op.B)))&0xFFFF
+			}
+			mc2 := NewBusMachine(env, 1, mem)
+			cp := &cpu65c816.CPU{}
+			cp.InitFrom(ca.c, mc2.busA)
+			mc = &Machine{CPU: cpuA{cp}, Mem: mem, busA: mc2.busA}
+			st.Probe("traced_cpu_is_a_copy_on_another_bus")
+		}
 		var recs []preStep
 		var lines [][]byte
 		strLines = nil
